@@ -12,6 +12,7 @@ package martian
 import (
 	"errors"
 	"net"
+	"net/http"
 	"time"
 
 	"github.com/saucelabs/forwarder/internal/vfrt"
@@ -257,4 +258,62 @@ func vfH_C15_keepalive() {
 	}
 	vfrt.Assert(exchange == 2, "keepalive/both-requests-answered")
 	vfrt.Assert(conn.Closed >= 1, "keepalive/closed-at-end-of-stream")
+}
+
+//vf:assume C15-slow-origin: symbolic idle / read-header / read / write timeouts; two requests on one connection; at the moment each request is with the origin (inside RoundTrip, which may take arbitrarily long) the deadlines armed on the client socket are inspected
+
+type vfDeadlineConn struct {
+	*VfConn
+	write    time.Time // the write deadline currently armed (zero = none)
+	writeSet []time.Time
+	writeAt  []time.Time
+}
+
+func (c *vfDeadlineConn) SetWriteDeadline(t time.Time) error {
+	c.write = t
+	c.writeSet = append(c.writeSet, t)
+	c.writeAt = append(c.writeAt, time.Now())
+	return c.VfConn.SetWriteDeadline(t)
+}
+
+type vfSlowOrigin struct {
+	conn  *vfDeadlineConn
+	armed []time.Time
+}
+
+func (rt *vfSlowOrigin) RoundTrip(req *http.Request) (*http.Response, error) {
+	rt.armed = append(rt.armed, rt.conn.write)
+	return &http.Response{StatusCode: 200, ProtoMajor: 1, ProtoMinor: 1, Header: http.Header{}, Body: http.NoBody, ContentLength: 0, Request: req}, nil
+}
+
+//vf:harness property=C15 nopanic reach=slow-origin-write-timeout-set,slow-origin-no-write-timeout steps=8000000
+func vfH_C15_slow_origin() {
+	rt := &vfSlowOrigin{}
+	p := &Proxy{RoundTripper: rt, WithoutWarning: true}
+	p.init()
+	p.IdleTimeout = vfDur("idle-timeout")
+	p.ReadHeaderTimeout = vfDur("read-header-timeout")
+	p.ReadTimeout = vfDur("read-timeout")
+	p.WriteTimeout = vfDur("write-timeout")
+	conn := &vfDeadlineConn{VfConn: NewVfConn([]byte("GET http://example.com/1 HTTP/1.1\r\nHost: example.com\r\n\r\nGET http://example.com/2 HTTP/1.1\r\nHost: example.com\r\n\r\n"))}
+	rt.conn = conn
+	p.handleLoop(conn)
+	vfrt.Assert(len(rt.armed) == 2, "slow-origin/both-requests-forwarded")
+	// while the origin takes its time no write deadline is running against the client: the write limit bounds the
+	// writing of a response, not the waiting for it
+	for _, d := range rt.armed {
+		vfrt.Assert(d.IsZero(), "slow-origin/no-write-deadline-armed-while-waiting-for-the-origin")
+	}
+	if p.WriteTimeout > 0 {
+		vfrt.Reach("slow-origin-write-timeout-set")
+		// each response write is bounded by now + write-timeout (never earlier), and the deadline is cleared afterwards
+		vfrt.Assert(len(conn.writeSet) == 4, "slow-origin/deadline-set-and-cleared-per-response")
+		for i := 0; i+1 < len(conn.writeSet); i += 2 {
+			vfrt.Assert(!conn.writeSet[i].After(conn.writeAt[i].Add(p.WriteTimeout)), "slow-origin/write-deadline-is-now-plus-write-timeout")
+			vfrt.Assert(conn.writeSet[i+1].IsZero(), "slow-origin/write-deadline-cleared-after-the-response")
+		}
+	} else {
+		vfrt.Reach("slow-origin-no-write-timeout")
+		vfrt.Assert(len(conn.writeSet) == 0, "slow-origin/no-write-deadline-without-a-write-timeout")
+	}
 }
